@@ -80,3 +80,27 @@ func (l *VerifLimiter) MarkUsed(id uint16) {
 	l.pl.markUsedLocked(id)
 	l.pl.unlock()
 }
+
+// VerifRunConnect feeds already-decoded packets to the connect state machine of a fresh
+// client (as readLoop would hand them over) and returns what the client queued for
+// writing and whether the connection was accepted.  The per-connection goroutines are
+// not started.
+func VerifRunConnect(s Server, conn net.Conn, in []packets.Packet) (out []packets.Packet, ok bool) {
+	srv := s.(*server)
+	c, err := srv.newClient(conn)
+	if err != nil {
+		return nil, false
+	}
+	for _, p := range in {
+		c.in <- p
+	}
+	ok = c.connectWithTimeOut()
+	for {
+		select {
+		case p := <-c.out:
+			out = append(out, p)
+		default:
+			return out, ok
+		}
+	}
+}
